@@ -503,10 +503,8 @@ def positions(repo: Repo, rep, P: str):
         rep.violation(f"{P}.R4", f"{sv.file.rel}:SunVoxReader.process_SEND", s[:120], "a bare SEND must append an empty module position", sv.file.rel)
     eof = inline.normalize(repo, sv, repo.own_method(sv, "process_end_of_file"), aliases=True)
     n_trim = 0
-    parents = {}
-    for n in ast.walk(eof):
-        for c in ast.iter_child_nodes(n):
-            parents[id(c)] = n
+    trims = trailing_none_trims(eof)
+    inside_trim = {id(x) for t in trims for x in ast.walk(t)}
     for n in ast.walk(eof):
         removing = None
         if isinstance(n, ast.Call) and isinstance(n.func, ast.Attribute) and norm(n.func.value) == "self.object.modules" \
@@ -517,17 +515,8 @@ def positions(repo: Repo, rep, P: str):
         if removing is None:
             continue
         n_trim += 1
-        ok = False
-        if isinstance(removing, ast.Call) and removing.func.attr == "pop" and not removing.args:
-            cur = removing
-            while id(cur) in parents:
-                cur = parents[id(cur)]
-                if isinstance(cur, (ast.While, ast.If)):
-                    conj = cur.test.values if isinstance(cur.test, ast.BoolOp) and isinstance(cur.test.op, ast.And) else [cur.test]
-                    if any(norm(c) in ("self.object.modules[-1] is None", "not self.object.modules[-1]") for c in conj):
-                        ok = True
-        if ok:
-            rep.ok(f"{P}.R4", f"{sv.file.rel}:SunVoxReader.process_end_of_file", "while … modules[-1] is None: modules.pop()",
+        if id(removing) in inside_trim:
+            rep.ok(f"{P}.R4", f"{sv.file.rel}:SunVoxReader.process_end_of_file", norm(removing)[:80],
                    "only trailing empty positions are removed")
         else:
             rep.violation(f"{P}.R4", f"{sv.file.rel}:SunVoxReader.process_end_of_file", norm(removing)[:120],
@@ -624,6 +613,38 @@ def fixups(repo: Repo, rep, P: str):
     else:
         rep.violation(f"{P}.R6", f"{rel}:SunVoxReader.process_chunks", pc[:200], "files without BVER must get the legacy based-on version", rel)
     module_highbyte_fixup(repo, rep, P, "R6", require_present=True)
+
+
+def trailing_none_trims(fn: ast.FunctionDef, table: str = "self.object.modules") -> List[ast.stmt]:
+    """Statements of `fn` (top level) that drop the trailing None entries of `table` and nothing else:
+         while T and T[-1] is None: T.pop() | del T[-1]
+         n = len(T); while n and T[n - 1] is None: n -= 1;   del T[n:]"""
+    out: List[ast.stmt] = []
+    body = fn.body
+    for i, st in enumerate(body):
+        if isinstance(st, ast.While) and not st.orelse:
+            conj = st.test.values if isinstance(st.test, ast.BoolOp) and isinstance(st.test.op, ast.And) else [st.test]
+            texts = [norm(c) for c in conj]
+            real = [b for b in st.body if not isinstance(b, ast.Pass)]
+            if f"{table}[-1] is None" in texts and len(real) == 1:
+                b = real[0]
+                if (isinstance(b, ast.Expr) and norm(b.value) in (f"{table}.pop()", f"{table}.pop(-1)")) or \
+                        (isinstance(b, ast.Delete) and [norm(t) for t in b.targets] == [f"{table}[-1]"]):
+                    out.append(st)
+                    continue
+            # index scan: while n and T[n - 1] is None: n -= 1
+            for c in conj:
+                if isinstance(c, ast.Compare) and len(c.ops) == 1 and isinstance(c.ops[0], ast.Is) and norm(c.comparators[0]) == "None" \
+                        and isinstance(c.left, ast.Subscript) and norm(c.left.value) == table and isinstance(c.left.slice, ast.BinOp) \
+                        and isinstance(c.left.slice.op, ast.Sub) and isinstance(c.left.slice.left, ast.Name) and norm(c.left.slice.right) == "1" \
+                        and len(real) == 1 and isinstance(real[0], ast.AugAssign) and isinstance(real[0].op, ast.Sub) \
+                        and norm(real[0].target) == c.left.slice.left.id and norm(real[0].value) == "1":
+                    v = c.left.slice.left.id
+                    init = [x for x in body[:i] if isinstance(x, ast.Assign) and norm(x.targets[0]) == v and norm(x.value) == f"len({table})"]
+                    dels = [x for x in body[i + 1:] if isinstance(x, ast.Delete) and [norm(t) for t in x.targets] == [f"{table}[{v}:]"]]
+                    if init and dels:
+                        out.extend([st, dels[0]])
+    return out
 
 
 def module_highbyte_fixup(repo: Repo, rep, P: str, rule: str, require_present: bool):
